@@ -344,6 +344,9 @@ impl Check for ProgCheck {
         crate::prop::run(ctx, profile, cases, tape_strategy(700), |ctx, tape| {
             self.check_case(ctx, tape, profile)
         });
+        if matches!(self.kind, Kind::Reclaim | Kind::Prune) {
+            tape_triage(ctx, |ctx, tape, profile| self.check_case(ctx, tape, profile));
+        }
     }
 
     fn replay(&self, ctx: &mut ShardCtx, _stage: &str, input: &J) -> Outcome {
